@@ -24,8 +24,16 @@ func init() {
 		Modules: []Module{{Dir: ".", Patterns: []string{"./internal/targets"}}},
 		Specs:   []string{"common.smt2"},
 		Gen:     genC18,
+		Post: func(ck *Checker, rep *Report, opts *Options) {
+			if opts.OnlyFn != "" {
+				return
+			}
+			runBounded(rep, opts, "c18", map[string]string{"internal/targets/zz_verif_resolve_test.go": "harness/c18_resolve_test.go"}, []string{"./internal/targets/"}, "TestZZVerifResolve",
+				[]string{"VERIF_C18=1"}, 2, "resolution-matches-the-law",
+				"the real Loader.Load on every target of every inheritance graph of two families, compared with an independent resolver written from the property statement: graphs3 = 3 targets each inheriting from any sequence of length 0..2 over {a, b, c, <missing>} (9261 graphs; cyclic ones loaded in a child process so that a crash or hang is reported with its graph); dags4 = 4 targets each inheriting from any sequence of length 0..2 over the earlier ones (273 DAGs: chains, diamonds, shared ancestors at different depths, a parent named twice); every successful Load repeated on the same Loader")
+		},
 		Undecided: []string{
-			"resolution order over the inheritance forest (resolveInheritance/Load) and the cyclic-parent clause: see DESIGN.md C18",
+			"resolution order over the inheritance forest and the missing/cyclic-parent clause beyond the enumerated graph families (bounded stand-in only; the contracts decide the merge law, the memory discipline of the fold and error propagation)",
 			"JSON decoding of the shipped target files (encoding/json, trusted)",
 		},
 		Assume: []string{"strings are compared by representation (data pointer, length); the merge law only moves whole string values",
